@@ -427,6 +427,9 @@ CORPUS = [
                           "fs create e/1", "fs create e/2", "fs create e/3", "api add d", "api add e", "fs write d/1", "racecl create e/0"]),
     ("k-dir-write-rename-coalesced", ["fs mkdir p", "api add p", "fs mkdir p/d", "api add p/d", "hold", "fs create p/d/x", "fs rename p/d p/e", "release", "fs mkdir p/d"]),
     ("k-watched-file-recreated-in-burst", ["fs mkdir d0", "fs create d0/x", "api add d0/x", "hold", "fs unlink d0/x", "fs create d0/x", "release"]),
+    ("k-c17-coalesced-remove", ["fs mkdir d0", "api add d0", "hold", "fs create d0/s", "fs rename d0 d0r", "release", "api remove d0"]),
+    ("k-c17-symlink-entry", ["fs mkdir d0", "api add d0", "hold", "fs symlink . d0/x", "fs rename d0 d0r", "release", "api remove d0"]),
+    ("k-c18-watched-dir-renamed", ["fs mkdir d0", "hold", "api add d0", "fs rename d0 d0r", "fs symlink nowhere d0r/p", "release", "fs symlink /T/d0r d0"]),
     ("k-burst-rmdir-recreate", ["fs mkdir d", "api add d", "fs mkdir d/s", "hold", "fs rmdir d/s", "fs create d/s", "release"]),
     ("p-plain", ["fs mkdir d", "fs create d/pre", "api add d", "fs create d/a", "fs write d/a", "fs chmod d/a", "fs rename d/a d/b",
                  "fs unlink d/b", "fs create d/b", "fs mkdir d/s", "fs rmdir d/s", "api list", "api remove d", "api list"]),
